@@ -739,7 +739,16 @@ def layout_rule(m, rid, floor=150):
     return r
 
 
-def roundtrip_rule(m, rid, samples=None, floor=1):
+# documented canonicalisations (explicit KIND=/LEN=/UNIT= keywords, empty dummy-argument parentheses)
+CANONICAL = {
+    ("Kind_Selector", "(8)"): "(kind = 8)",
+    ("Char_Selector", "(n+1, kind=ck)"): "(len = n+1, kind = ck)",
+    ("Connect_Spec", "f(1, 2)"): "unit = f(1, 2)",
+    ("Subroutine_Stmt", "subroutine t() bind(c)"): "subroutine t bind(c)",
+}
+
+
+def roundtrip_rule(m, rid, samples=None, floor=1, tokens=False):
     samples = SAMPLES if samples is None else samples
     r = RuleResult(rid, "fparser2 class-local round trip by interpretation: for %d sample texts the class's matcher (children are recording "
                         "stubs, engines interpreted) accepts the text, every literal and parenthesised group re-appears in what its printer "
@@ -773,6 +782,15 @@ def roundtrip_rule(m, rid, samples=None, floor=1):
             r.ob(False)
             r.fail("%s|rejected" % ident, "%s.match rejects the valid text %r" % (cname, text), m.class_loc(key))
             continue
+        if tokens:
+            def norm(t):
+                return squeeze(t).replace("::", "")
+            want_text = CANONICAL.get((cname, text), text)
+            if norm(out1) != norm(want_text):
+                r.ob(False)
+                r.fail("%s|tokens" % ident, "%s: %r is printed as %r; apart from blanks, case and '::' the text should be %r: a token is "
+                       "dropped, invented or moved" % (cname, text, out1, want_text), m.class_loc(key))
+                continue
         sq = squeeze(out1)
         lost = [p for p in literals_and_groups(text) if squeeze(p) not in sq]
         if lost:
